@@ -8,7 +8,7 @@
 From VV.M1 Require Export Schema.
 From VV.EXP Require Export Display Imports.
 
-Inductive xerr := XDiverge | XPanic.          (* unbounded recursion / loop; index out of bounds *)
+Inductive xerr := XDiverge | XPanic.          (* fuel exhausted (shown unreachable, NamesP / UniqueP); index out of bounds *)
 
 (* ---------- character classes ---------- *)
 Definition byte_in (lo hi : N) (a : ascii) : bool := let n := N_of_ascii a in (N.leb lo n && N.leb n hi)%bool.
@@ -169,32 +169,61 @@ Definition find_table (schema : list table_def) (name : string) : option table_d
 Definition table_exists (schema : list table_def) (name : string) : bool :=
   existsb (fun t => String.eqb (t_name t) name) schema.
 
-(* resolve_fk_target (412-440): recursion along single-column FK chains, no visited set *)
+(* resolve_fk_target / resolve_fk_chain (412-456): recursion along single-column FK chains with a visited set *)
 Definition next_fk (target : table_def) (ref_col : string) : option (string * list string) :=
   match find (fun f => match f with (([c], _), _) => String.eqb c ref_col | _ => false end) (fks_of target) with
   | Some ((_, nt), ncs) => Some (nt, ncs)
   | None => None
   end.
-Fixpoint resolve_fk_target (fuel : nat) (schema : list table_def) (ref_table : string) (ref_columns : list string)
-  : option (string * list string) :=
+Definition node_eqb (a b : string * string) : bool := (String.eqb (fst a) (fst b) && String.eqb (snd a) (snd b))%bool.
+(* resolve_fk_chain (421-456, fix c0929b8): [visited] = the (table, column) nodes already followed; a node seen
+   before ends the walk and is returned.  The fuel stays (the recursion is not structural) and is shown sufficient. *)
+Fixpoint resolve_fk_chain (fuel : nat) (schema : list table_def) (ref_table : string) (ref_columns : list string)
+  (visited : list (string * string)) : option (string * list string) :=
   match fuel with
   | O => None
   | S f =>
       match schema, ref_columns with
       | [], _ => Some (ref_table, ref_columns)
       | _, [ref_col] =>
-          match find_table schema ref_table with
-          | None => Some (ref_table, ref_columns)
-          | Some target =>
-              match next_fk target ref_col with
-              | Some (nt, ncs) => resolve_fk_target f schema nt ncs
-              | None => Some (ref_table, ref_columns)
-              end
-          end
+          if existsb (node_eqb (ref_table, ref_col)) visited then Some (ref_table, ref_columns)
+          else
+            match find_table schema ref_table with
+            | None => Some (ref_table, ref_columns)
+            | Some target =>
+                match next_fk target ref_col with
+                | Some (nt, ncs) => resolve_fk_chain f schema nt ncs ((ref_table, ref_col) :: visited)
+                | None => Some (ref_table, ref_columns)
+                end
+            end
       | _, _ => Some (ref_table, ref_columns)
       end
   end.
-(* a chain that has not ended after visiting more nodes than there are single-column FKs has repeated one *)
+(* resolve_fk_target (412-419) *)
+Definition resolve_fk_target (fuel : nat) (schema : list table_def) (ref_table : string) (ref_columns : list string)
+  : option (string * list string) := resolve_fk_chain fuel schema ref_table ref_columns [].
+
+(* same walk; does it end because it came back to a node it had followed? (former class of C16-seaorm-fk-cycle) *)
+Fixpoint chain_closes (fuel : nat) (schema : list table_def) (ref_table : string) (ref_columns : list string)
+  (visited : list (string * string)) : bool :=
+  match fuel with
+  | O => false
+  | S f =>
+      match schema, ref_columns with
+      | [], _ => false
+      | _, [ref_col] =>
+          if existsb (node_eqb (ref_table, ref_col)) visited then true
+          else match find_table schema ref_table with
+               | None => false
+               | Some target => match next_fk target ref_col with
+                                | Some (nt, ncs) => chain_closes f schema nt ncs ((ref_table, ref_col) :: visited)
+                                | None => false
+                                end
+               end
+      | _, _ => false
+      end
+  end.
+(* every step adds a new (table, column) node that carries a single-column FK: more than their number cannot be taken *)
 Definition resolve_fuel (schema : list table_def) : nat :=
   S (S (List.length (flat_map fks_of schema))).
 
@@ -445,9 +474,10 @@ Definition known_C17_clash (schema : list table_def) (t : table_def) : bool :=
 Definition fk_closed (schema : list table_def) : bool :=
   forallb (fun tb => forallb (fun f => table_exists schema (snd (fst f))) (fks_of tb)) schema.
 
-(* classifier of D15 (C16): a single-column FK chain of the slice never ends *)
+(* former class of C16-seaorm-fk-cycle (D15, fixed by c0929b8; statistics only): some FK of the table starts a
+   single-column chain that comes back to a node it has followed *)
 Definition known_C16_fk_cycle (schema : list table_def) (t : table_def) : bool :=
-  match forward_resolved (resolve_fuel schema) t schema with Err XDiverge => true | _ => false end.
+  existsb (fun f => chain_closes (resolve_fuel schema) schema (snd (fst f)) (snd f) []) (fks_of t).
 
 (* classifier of the slice-order finding (C18): at least two other tables contribute reverse relations *)
 Definition known_C18_slice_order (schema : list table_def) (t : table_def) : bool :=
